@@ -173,7 +173,7 @@ Qed.
 
 (** What [exec_cached] needs to know about a step: the key it looks up and the
     answer of a fresh evaluation. *)
-Record areq := { a_key : option string; a_fresh : outcome * nat }.
+Record areq := { a_key : option string; a_fresh : outcome * nat; a_store : bool }.
 
 Definition aexec (c : cache) (a : areq) : sres * cache :=
   match a_key a with
@@ -185,7 +185,7 @@ Definition aexec (c : cache) (a : areq) : sres * cache :=
     | None =>
       let '(o, n) := a_fresh a in
       ({| sr_key := Some k; sr_hit := false; sr_calls := n; sr_out := o |},
-       match o with OAllow r => (k, r) :: c | _ => c end)
+       match o with OAllow r => if a_store a then (k, r) :: c else c | _ => c end)
     end
   end.
 
@@ -197,7 +197,7 @@ Fixpoint arun (c : cache) (l : list areq) : list sres :=
 
 Definition areq_of (H : string -> string) (w : world) (s : step) : areq :=
   {| a_key := cache_key H (st_ho s) (st_vo s) (st_inst s) (st_req s);
-     a_fresh := exec_fresh w (st_inst s) (st_req s) |}.
+     a_fresh := exec_fresh w (st_inst s) (st_req s); a_store := true |}.
 
 Lemma exec_cached_aexec H w c s :
   exec_cached H w c (st_ho s) (st_vo s) (st_inst s) (st_req s) = aexec c (areq_of H w s).
@@ -238,6 +238,7 @@ Proof.
   - destruct (lookup ka c) as [r0|] eqn:Lk; simpl in L; auto.
     destruct (a_fresh a) as [o n] eqn:F. simpl in L.
     destruct o as [r1| |]; simpl in L; auto.
+    destruct (a_store a); simpl in L; auto.
     destruct (String.eqb_spec k ka) as [->|N]; auto.
     injection L as <-. exists a. splits; auto.
     + apply in_or_app; right; left; reflexivity.
@@ -275,13 +276,14 @@ Qed.
 (** and compatibility is necessary: a history of two requests that is not
     compatible shows different outcomes with and without the cache *)
 Theorem incompatible_not_transparent : forall a b k r,
-  a_key a = Some k -> a_key b = Some k -> fst (a_fresh a) = OAllow r -> fst (a_fresh b) <> OAllow r ->
+  a_key a = Some k -> a_key b = Some k -> a_store a = true ->
+  fst (a_fresh a) = OAllow r -> fst (a_fresh b) <> OAllow r ->
   map sr_out (arun [] [a; b]) <> map (fun a => fst (a_fresh a)) [a; b].
 Proof.
-  intros a b k r Ka Kb Fa Fb E.
+  intros a b k r Ka Kb Sa Fa Fb E.
   destruct (a_fresh a) as [o n] eqn:FA. simpl in Fa. subst o.
   assert (E1 : aexec [] a = ({| sr_key := Some k; sr_hit := false; sr_calls := n; sr_out := OAllow r |}, [(k, r)])).
-  { unfold aexec. rewrite Ka, FA. reflexivity. }
+  { unfold aexec. rewrite Ka, FA, Sa. reflexivity. }
   assert (E2 : aexec [(k, r)] b = ({| sr_key := Some k; sr_hit := true; sr_calls := 0; sr_out := OAllow r |}, [(k, r)])).
   { unfold aexec. rewrite Kb. simpl. rewrite String.eqb_refl. reflexivity. }
   cbn [arun map] in E. rewrite E1 in E. rewrite E2 in E. rewrite FA in E. simpl in E.
@@ -296,21 +298,23 @@ Proof.
   intro L. unfold aexec. destruct (a_key a) as [ka|].
   - destruct (lookup ka c) eqn:Lk; simpl; eauto.
     destruct (a_fresh a) as [o n]. simpl. destruct o; simpl; eauto.
+    destruct (a_store a); simpl; eauto.
     destruct (String.eqb k ka); eauto.
   - destruct (a_fresh a). simpl. eauto.
 Qed.
 
 Lemma stored_after c a k r :
-  a_key a = Some k -> fst (a_fresh a) = OAllow r -> exists r', lookup k (snd (aexec c a)) = Some r'.
+  a_key a = Some k -> a_store a = true -> fst (a_fresh a) = OAllow r ->
+  exists r', lookup k (snd (aexec c a)) = Some r'.
 Proof.
-  intros K F. unfold aexec. rewrite K. destruct (lookup k c) eqn:L; simpl; eauto.
-  destruct (a_fresh a) as [o n]. simpl in F. subst o. simpl. rewrite String.eqb_refl. eauto.
+  intros K St F. unfold aexec. rewrite K. destruct (lookup k c) eqn:L; simpl; eauto.
+  destruct (a_fresh a) as [o n]. simpl in F. subst o. rewrite St. simpl. rewrite String.eqb_refl. eauto.
 Qed.
 
 Lemma arun_app : forall l1 l2 c,
   exists c', arun c (l1 ++ l2) = arun c l1 ++ arun c' l2 /\
              (forall k r, lookup k c = Some r -> exists r', lookup k c' = Some r') /\
-             (forall a k r, In a l1 -> a_key a = Some k -> fst (a_fresh a) = OAllow r ->
+             (forall a k r, In a l1 -> a_key a = Some k -> a_store a = true -> fst (a_fresh a) = OAllow r ->
                             exists r', lookup k c' = Some r').
 Proof.
   induction l1 as [|a l1 IH]; intros l2 c; simpl.
@@ -319,19 +323,19 @@ Proof.
     destruct (IH l2 c1) as (c' & E & M & S). exists c'. splits.
     + now rewrite E.
     + intros k r L. destruct (lookup_some_mono c a k r L) as [r1 L1]. rewrite X in L1. simpl in L1. eauto.
-    + intros a0 k r [<-|I] K F.
-      * destruct (stored_after c a k r K F) as [r1 L1]. rewrite X in L1. simpl in L1. eauto.
+    + intros a0 k r [<-|I] K St F.
+      * destruct (stored_after c a k r K St F) as [r1 L1]. rewrite X in L1. simpl in L1. eauto.
       * eauto.
 Qed.
 
 (** a request whose key was looked up by an earlier request that a fresh
     evaluation allows is answered from the cache, without a remote call *)
 Theorem hit_abstract : forall l1 a l2 b k r c,
-  a_key a = Some k -> a_key b = Some k -> fst (a_fresh a) = OAllow r ->
+  a_key a = Some k -> a_key b = Some k -> a_store a = true -> fst (a_fresh a) = OAllow r ->
   exists x, nth_error (arun c (l1 ++ a :: l2 ++ [b])) (length l1 + S (length l2)) = Some x /\
             sr_hit x = true /\ sr_calls x = 0.
 Proof.
-  intros l1 a l2 b k r c Ka Kb Fa.
+  intros l1 a l2 b k r c Ka Kb Sa Fa.
   replace (l1 ++ a :: l2 ++ [b]) with ((l1 ++ a :: l2) ++ [b]) by (rewrite <- app_assoc; reflexivity).
   destruct (arun_app (l1 ++ a :: l2) [b] c) as (c' & E & _ & St).
   destruct (St a k r) as [r' L]; auto. { apply in_or_app; right; left; reflexivity. }
